@@ -118,10 +118,28 @@ Example C19c_lost_is_order_dependent :
 Proof. cbv zeta. split; [apply perm_swap|]. repeat split; reflexivity. Qed.
 Print Assumptions C19c_lost_is_order_dependent.
 
-(* a compressed thread of the harness: a segment of n calls is n events *)
+(* a compressed thread of the harness: a segment of n calls is n events, the k-th of
+   them carrying sequence number seq+k (mod 2^16) and RTP timestamp rtpts+3000k (mod 2^32) *)
 Theorem C19c_segment_length : forall n e, length (expand_seg (n, e)) = Z.to_nat n.
-Proof. intros n e. unfold expand_seg. simpl. rewrite map_length, seq_length. reflexivity. Qed.
+Proof. intros n e. exact (calls_length (Z.to_nat n) e). Qed.
 Print Assumptions C19c_segment_length.
+
+Theorem C19c_segment_kth_call : forall n e k,
+  rtp_fields_in_range e -> (k < Z.to_nat n)%nat ->
+  nth_error (expand_seg (n, e)) k = Some (bump (Z.of_nat k) e).
+Proof. exact expand_seg_nth. Qed.
+Print Assumptions C19c_segment_kth_call.
+
+(* the counters of the model do not depend on the float kernels (the concurrent
+   correspondence executes the model with trivial ones) *)
+Theorem C19c_counters_kernel_independent :
+  forall F (fzero : F) ku kj krj kf kd kn G (gzero : G) ku' kj' krj' kf' kd' kn' ssrc rate evs,
+  counters (run fzero ku kj krj kf kd kn ssrc rate evs) = counters (run gzero ku' kj' krj' kf' kd' kn' ssrc rate evs).
+Proof.
+  intros. rewrite (counters_run fzero ku kj krj kf kd kn ssrc rate), (counters_run gzero ku' kj' krj' kf' kd' kn' ssrc rate).
+  reflexivity.
+Qed.
+Print Assumptions C19c_counters_kernel_independent.
 
 (* the oracle bin/check applies to the implementation's read after the join is
    exactly "the counters equal the recount of everything queued" ... *)
